@@ -671,6 +671,22 @@ func (p *pparser) pipe() stream.Stream[pv] {
 				}
 			}
 		}), func(x int64) pv { return pv{I: x} })
+	case "fromiter2p":
+		// the same over FromIterator2 (key/value sequence, iter.Pull2)
+		r := p.int()
+		xs, err := parseInts(p.next())
+		if err != nil && p.err == nil {
+			p.err = err
+		}
+		return stream.Map(stream.FromIterator2(func(yield func(int, int64) bool) {
+			w.ev(r, 'O')
+			defer w.ev(r, 'C')
+			for i, x := range xs {
+				if !yield(i, x) {
+					return
+				}
+			}
+		}), func(e shpanstream.Entry[int, int64]) pv { return pv{I: e.Value} })
 	case "jsonbad":
 		// JSON array whose 3rd element has the wrong type / that is truncated: Emit fails after a successful Open
 		r := p.int()
